@@ -401,8 +401,11 @@ fn gen_requests(tier: Tier) -> Vec<(ReqCfg, &'static str)> {
 fn redirected() -> Vec<(String, Spec, Box<dyn Fn() -> W + Send + Sync>)> {
     let locs = vec![Loc::one("/q?r=1"), Loc::one("http://b.test:8080/q/"), Loc::one("../up")];
     let mut out: Vec<(String, Spec, Box<dyn Fn() -> W + Send + Sync>)> = Vec::new();
-    for (m, cl) in [("GET", false), ("POST", true), ("DELETE", false)] {
+    for (m, cl) in [("GET", false), ("POST", true), ("DELETE", false), ("HEAD", false)] {
         let mut r = ReqCfg::new(m, "1.1", "http://a.test/d/p").orig("authorization", "S3CRET").orig("cookie", "k=ORIG").orig("x-keep", "1");
+        if m == "HEAD" {
+            r = r.orig("cookie", "k2=ORIG").orig("x-keep", "2").orig("authorization", "S3CRET-2");
+        }
         let mut body = vec![];
         if cl {
             r = r.orig("content-length", "3");
